@@ -21,6 +21,8 @@ From Borno Require Import NumFacts.
 From Borno Require Import EvalMeta.
 From Borno Require Import EvalOrder.
 From Borno Require Import InvFacts.
+From Borno Require Import RenameDefs.
+From Borno Require Import Rename.
 
 (** (a) inserting a blank, tab, carriage return or newline between any two items leaves the token list unchanged up to line numbers *)
 Theorem C18_layout_invariance :
@@ -239,3 +241,52 @@ Theorem C18_dead_unreferenced_function :
            (forall x : list N, str_eqb x name = false -> env_get_here rho x s3 = env_get_here rho x s).
 Proof. exact (@dead_unreferenced_function). Qed.
 Print Assumptions C18_dead_unreferenced_function.
+
+(** (d) consistent renaming of variables and parameters by ANY injective renaming that fixes the function names: the renamed program run in the renamed store does step for step what the original does (same fuel, same result constructor, renamed final store) *)
+Theorem C18_rename_run :
+  forall r : list N -> list N,
+         (forall a b : list N, r a = r b -> a = b) ->
+         forall (libm : N -> f64 -> f64 -> f64) (clock : f64)
+           (sched : N -> list (list N * value) -> list (list N * value)) (f : nat) 
+           (repl : bool) (ss : list stmt) (s : state),
+         nfs r s ->
+         Forall (nf_stmt r) ss ->
+         run_stmts libm clock sched f repl (map (ren_stmt r) ss) (ren_state r s) =
+         ren_res r (run_stmts libm clock sched f repl ss s).
+Proof. exact (@rename_run). Qed.
+Print Assumptions C18_rename_run.
+
+(** ...from the initial store (the renaming must also fix the built-in names): same ending - Ok, or the same error kind at the same line - same output, same input consumption *)
+Theorem C18_rename_run_observables :
+  forall r : list N -> list N,
+         (forall a b : list N, r a = r b -> a = b) ->
+         (forall n : native, r (native_name n) = native_name n) ->
+         forall (libm : N -> f64 -> f64 -> f64) (clock : f64)
+           (sched : N -> list (list N * value) -> list (list N * value)) (f : nat) 
+           (repl : bool) (ss : list stmt) (stdin : list N),
+         Forall (nf_stmt r) ss ->
+         observables (run_stmts libm clock sched f repl (map (ren_stmt r) ss) (init_state stdin)) =
+         observables (run_stmts libm clock sched f repl ss (init_state stdin)).
+Proof. exact (@rename_run_observables). Qed.
+Print Assumptions C18_rename_run_observables.
+
+(** ...instantiated: exchanging two names that are neither built-ins nor function names changes nothing observable (every finite renaming is a composition of such swaps with fresh names) *)
+Theorem C18_rename_swap_run :
+  forall (libm : N -> f64 -> f64 -> f64) (clock : f64)
+           (sched : N -> list (list N * value) -> list (list N * value)) (x y : list N),
+         (forall n : native, native_name n <> x) ->
+         (forall n : native, native_name n <> y) ->
+         forall (f : nat) (repl : bool) (ss : list stmt) (stdin : list N),
+         Forall (fun_names_ok (fun n : list N => n <> x /\ n <> y)) ss ->
+         observables (run_stmts libm clock sched f repl (map (ren_stmt (swap x y)) ss) (init_state stdin)) =
+         observables (run_stmts libm clock sched f repl ss (init_state stdin)).
+Proof. exact (@rename_swap_run). Qed.
+Print Assumptions C18_rename_swap_run.
+
+(** why function names are excluded: a function value prints as <function NAME>, so renaming a function is visible (the property allows exactly this difference) *)
+Theorem C18_function_names_are_observable :
+  observables
+           (run_stmts libm_d f_zero sched_d 20 false (map (ren_stmt (swap [102] [103])) demo) (init_state [])) <>
+         observables (run_stmts libm_d f_zero sched_d 20 false demo (init_state [])).
+Proof. exact (@function_names_are_observable). Qed.
+Print Assumptions C18_function_names_are_observable.
